@@ -40,6 +40,7 @@ struct Result {
     sim::Stats sim; // accumulated over all simulated executions of the run
     std::map<void*, sim::RegionStat> by_fn;
     long executions = 0;
+    std::string race_tag; // qualifies race classes with the context they need (e.g. "[all_radial_split]")
     void fail(const std::string& cls, const std::string& detail)
     {
         for (auto& v : violations)
